@@ -1,9 +1,12 @@
 #!/bin/sh
-# confirm every sub-agent result under /tmp/seed/Cxx/out/mK not yet processed
+# confirm every sub-agent result under /tmp/seed*/Cxx/out/mK not yet processed
+# (round 1: /tmp/seed -> Cxx-mK, round N: /tmp/seedN -> Cxx-rNmK)
 cd "$(dirname "$0")/.."
-for d in /tmp/seed/C*/out/m*; do
+for d in /tmp/seed*/C*/out/m*; do
   [ -f "$d/meta.json" ] && [ -f "$d/patch.diff" ] && [ -f "$d/demo.py" ] || continue
-  p=$(basename $(dirname $(dirname $d))); k=$(basename $d); n="$p-$k"
+  root=$(echo $d | cut -d/ -f3); r=${root#seed}
+  p=$(basename $(dirname $(dirname $d))); k=$(basename $d)
+  if [ -z "$r" ]; then n="$p-$k"; else n="$p-r$r$k"; fi
   [ -d seeded/$n ] && continue
   [ -f .work/rejected_$n.json ] && continue
   /venv/bin/python tools/seedtool.py confirm $d $n 2>&1 | tail -1 | cut -c1-300
